@@ -128,6 +128,8 @@ def show(v, depth=0):
                            ", ".join(show(a, depth + 1) for a in v[2]))
     if t == "fld":
         return "%s.%s" % (show(v[1], depth + 1), v[2])
+    if t == "rec":
+        return "%s{%s}" % (v[1].split("::")[-1], ", ".join("%s=%s" % (f, show(x, depth + 1)) for f, x in v[2]))
     if t == "tuple":
         return "(" + ", ".join(show(a, depth + 1) for a in v[1]) + ")"
     if t == "cast":
@@ -183,7 +185,7 @@ class Config:
     """per-check configuration of the interpreter"""
 
     def __init__(self, inline=(), pure=(), opaque=(), inline_all_fcppt=False, max_depth=40,
-                 loop_bound=2, hooks=None, pure_prefixes=(), inline_prefixes=()):
+                 loop_bound=2, hooks=None, pure_prefixes=(), inline_prefixes=(), record_prefixes=()):
         self.inline = set(inline)
         self.pure = set(pure)
         self.opaque = set(opaque)
@@ -193,6 +195,8 @@ class Config:
         self.hooks = hooks or {}
         self.pure_prefixes = tuple(pure_prefixes)
         self.inline_prefixes = tuple(inline_prefixes)
+        # classes whose constructors are interpreted field by field: the object becomes ("rec", cls, fields)
+        self.record_prefixes = tuple(record_prefixes)
 
 
 class Interp:
@@ -766,6 +770,10 @@ class Interp:
                 return r
         if kind in ("copy", "move") and len(args) == 1:
             return args[0]
+        if cls and d is not None and any(cls.startswith(pfx) for pfx in self.cfg.record_prefixes):
+            r = self.record_of(unit, n, cls, d, args)
+            if r is not None:
+                return r
         if cls == OPT:
             if not args:
                 return ("new", OPT, "none", ())
@@ -791,6 +799,24 @@ class Interp:
             return ("new", VAR, pt, (args[0],))
         return ("new", cls, "", tuple(args))
 
+    def record_of(self, unit, n, cls, d, args):
+        """object built by a constructor whose member initialisers are interpreted: ("rec", cls, ((field, value), ...))"""
+        fn = self.db.resolve(unit, n.get("callee"))
+        if fn is None or fn.get("kind") != "ctor" or "inits" not in fn:
+            return None
+        params = fn.get("params", [])
+        if len(params) != len(args):
+            return None
+        env = Env()
+        for p_, a in zip(params, args):
+            env.vars[p_["id"]] = a
+        fields = []
+        for i in fn["inits"]:
+            if "field" not in i:
+                continue
+            fields.append((i["field"], self.eval(fn["_unit"], i.get("init"), env, None)))
+        return ("rec", cls, tuple(fields))
+
     # -- calls -----------------------------------------------------------------------------
     def call(self, unit, n, env, this):
         d = unit.decls.get(n.get("callee")) if n.get("callee") is not None else None
@@ -805,7 +831,7 @@ class Interp:
         if "c" in n and qn.startswith("std::numeric_limits"):
             return ("k", n["c"])
         if qn in TRANSPARENT:
-            if n.get("recv") is not None:
+            if n.get("recv") is not None and not (n.get("opcall") == "()" and n.get("args")):
                 return self.eval(unit, n["recv"], env, this)
             if not n.get("args"):
                 return ("k", None)
